@@ -4,8 +4,15 @@
           so every consumer without a deadline must finish: a lost or swallowed wake-up ends as a stuck run.
    MODE 1 (readers): reader-mode waiters wait for a flag; one writer sets it and issues ONE nsync_cv_signal:
           all waiting readers must be released (C04), plus optionally a writer-mode waiter.
+   MODE 5 (all queued, ONE wake-up): 2..4 waiters without deadline (writer mode, reader mode, generic-lock callers of
+          nsync_cv_wait_with_deadline_generic) are all on the cv queue; then the flag is set and ONE nsync_cv_broadcast
+          is issued (every waiter must return: stuck detector) or ONE nsync_cv_signal (at least one waiter returns, and
+          if only readers returned then every reader returned), see below.
+   MODE 6 (flag monitor, everything races): reader-mode / writer-mode / generic-lock waiters, plain / timed /
+          cancellable, race a setter's broadcast, signals that change nothing, deadlines and the cancellation.
    Oracles on every wait return: lock held in the caller's mode (C01/C05 shadow occupancy), ETIMEDOUT only at or
-   after the deadline, ECANCELED only with the note notified (C05).  VRT_DEBUGGER=1 adds a thread calling the
+   after the deadline, ECANCELED only with the note notified (C05; "notified" is the scenario's own record that
+   nsync_note_notify has been called, not the library's answer).  VRT_DEBUGGER=1 adds a thread calling the
    debug-state functions of the mutex and the cv, with a write monitor (C16). */
 #include "nsync.h"
 #include "vrt.h"
@@ -13,13 +20,17 @@
 #include <string.h>
 #include <errno.h>
 #include <stdint.h>
+#include <limits.h>
+#include <unistd.h>
+#include <sys/syscall.h>
+#include <linux/futex.h>
 #include "dll.h"
 
 static nsync_mu mu;
 static nsync_cv cv;
 static int tokens, go_flag, taken;
 static nsync_note cancel;
-#define SH_NOTIFIED 2
+#define SH_NOTIFIED 2         /* shadow: set BEFORE nsync_note_notify (cancel) is called (the note has no expiry and no parent) */
 
 static int64_t ts_ns (nsync_time t) { return (int64_t) t.tv_sec * 1000000000LL + t.tv_nsec; }
 
@@ -57,6 +68,49 @@ static void monitor (volatile void *p, uint32_t o, uint32_t n, const char *file,
 	}
 }
 
+/* ---- scenario-level blocking that does not go through the library under test: private futex words.  A thread that
+   naps has a pending deadline, so when every other thread is asleep the virtual clock jumps and it runs again: it then
+   sees a QUIESCENT world (nobody else can take a step), which is what "this waiter was not woken" soundly means under an
+   arbitrary scheduler.  Kept out of the race detector's sight (oracle bookkeeping, not client data). */
+#define NOSAN __attribute__ ((no_sanitize ("thread")))
+static uint32_t nap_word;
+NOSAN static void nap_until (int64_t abs_ns) {
+	struct timespec ts;
+	ts.tv_sec = abs_ns / 1000000000LL; ts.tv_nsec = abs_ns % 1000000000LL;
+	while (vrt_now_ns () < abs_ns)
+		syscall (SYS_futex, &nap_word, (long) (FUTEX_WAIT_BITSET | FUTEX_PRIVATE_FLAG | FUTEX_CLOCK_REALTIME), 0L, &ts, NULL, -1L);
+}
+/* a gate: gate_wait blocks (no deadline) until gate_open has been called; sh is the shadow index that records "open" */
+NOSAN static void gate_wait (uint32_t *g, int sh) {
+	while (!vrt_sh_get (sh)) syscall (SYS_futex, g, (long) (FUTEX_WAIT_BITSET | FUTEX_PRIVATE_FLAG), 0L, NULL, NULL, -1L);
+}
+NOSAN static void gate_open (uint32_t *g, int sh) {
+	vrt_sh_set (sh, 1);
+	*g = 1;
+	syscall (SYS_futex, g, (long) (FUTEX_WAKE | FUTEX_PRIVATE_FLAG), (long) INT_MAX, NULL, NULL, 0L);
+}
+static int n_tids, tids[12];          /* all threads of the run, filled in by main before vrt_run */
+static int others_quiet (void) {      /* every other thread is asleep or has finished */
+	int i;
+	for (i = 0; i < n_tids; i++)
+		if (tids[i] != vrt_self () && !vrt_is_blocked (tids[i]) && !vrt_is_finished (tids[i])) return 0;
+	return 1;
+}
+
+/* the checks on the result code of a timed / cancellable cv wait (C05); dl_ns is meaningful only if timed */
+static void check_result (int r, int timed, int64_t dl_ns, int cancellable) {
+	if (r == ETIMEDOUT) {
+		vrt_count ("ret_timeout");
+		if (!timed) vrt_fail ("C05", "wait without deadline returned ETIMEDOUT");
+		if (vrt_now_ns () < dl_ns) vrt_fail ("C05", "ETIMEDOUT at %lld before the deadline %lld", (long long) vrt_now_ns (), (long long) dl_ns);
+	} else if (r == ECANCELED) {
+		vrt_count ("ret_cancel");
+		if (!cancellable) vrt_fail ("C05", "ECANCELED without a note");
+		if (!vrt_sh_get (SH_NOTIFIED)) vrt_fail ("C05", "ECANCELED but nobody has called nsync_note_notify on the note (it has no expiry)");
+	} else if (r != 0) vrt_fail ("C05", "unexpected result %d", r);
+	else vrt_count ("ret_woken");
+}
+
 /* one wait with all the return-time checks; mode: 1 writer, 0 reader */
 static int checked_wait (int writer, int timed, int cancellable) {
 	nsync_time dl = nsync_time_no_deadline;
@@ -67,16 +121,65 @@ static int checked_wait (int writer, int timed, int cancellable) {
 	r = nsync_cv_wait_with_deadline (&cv, &mu, dl, cancellable ? cancel : NULL);
 	vrt_note ("ret %d %d", vrt_self (), r);
 	vrt_acquired (&mu, writer);
-	if (r == ETIMEDOUT) {
-		vrt_count ("ret_timeout");
-		if (!timed) vrt_fail ("C05", "wait without deadline returned ETIMEDOUT");
-		if (vrt_now_ns () < ts_ns (dl)) vrt_fail ("C05", "ETIMEDOUT at %lld before the deadline %lld", (long long) vrt_now_ns (), (long long) ts_ns (dl));
-	} else if (r == ECANCELED) {
-		vrt_count ("ret_cancel");
-		if (!cancellable) vrt_fail ("C05", "ECANCELED without a note");
-		if (!nsync_note_is_notified (cancel)) vrt_fail ("C05", "ECANCELED but the note is not notified");
-	} else if (r != 0) vrt_fail ("C05", "unexpected result %d", r);
-	else vrt_count ("ret_woken");
+	check_result (r, timed, ts_ns (dl), cancellable);
+	return r;
+}
+
+/* waits through nsync_cv_wait_with_deadline_generic with caller-supplied lock functions: thin wrappers around the
+   nsync_mu calls, so that the library cannot recognise the lock as an nsync_mu (cv.c: cv_mu == NULL, l_type == NULL: no
+   transfer to the mutex queue, re-acquisition through the callback).  The callbacks count their calls per thread: a
+   wait must call unlock once and then lock once. */
+#define SH_GUN(t) (100 + (t))        /* shadow: unlock callbacks by thread t during its current generic wait */
+#define SH_GLK(t) (130 + (t))        /* shadow: lock callbacks ... */
+static void g_relock_check (void) {
+	int t = vrt_self ();
+	if (vrt_sh_get (SH_GUN (t)) != 1 || vrt_sh_get (SH_GLK (t)) != 0)
+		vrt_fail ("C05", "generic cv wait called the lock callback after %ld unlock and %ld lock callbacks", vrt_sh_get (SH_GUN (t)), vrt_sh_get (SH_GLK (t)));
+	vrt_sh_add (SH_GLK (t), 1);
+}
+static void g_unlock_check (void) {
+	int t = vrt_self ();
+	if (vrt_sh_get (SH_GUN (t)) != 0 || vrt_sh_get (SH_GLK (t)) != 0)
+		vrt_fail ("C05", "generic cv wait called the unlock callback after %ld unlock and %ld lock callbacks", vrt_sh_get (SH_GUN (t)), vrt_sh_get (SH_GLK (t)));
+	vrt_sh_add (SH_GUN (t), 1);
+}
+static void g_lock (void *m) { nsync_mu_lock ((nsync_mu *) m); vrt_acquired (m, 1); g_relock_check (); }
+static void g_unlock (void *m) { g_unlock_check (); vrt_releasing (m, 1); nsync_mu_unlock ((nsync_mu *) m); }
+static void g_rlock (void *m) { nsync_mu_rlock ((nsync_mu *) m); vrt_acquired (m, 0); g_relock_check (); }
+static void g_runlock (void *m) { g_unlock_check (); vrt_releasing (m, 0); nsync_mu_runlock ((nsync_mu *) m); }
+
+/* lock kinds of MODE 5 / 6 waiters */
+enum { LK_W = 0, LK_R = 1, LK_GW = 2, LK_GR = 3 };   /* native writer, native reader, generic exclusive, generic shared */
+static int lk_writer (int lk) { return lk == LK_W || lk == LK_GW; }
+static void lk_lock (int lk) {
+	if (lk == LK_R || lk == LK_GR) nsync_mu_rlock (&mu); else nsync_mu_lock (&mu);
+	vrt_acquired (&mu, lk_writer (lk));
+}
+static void lk_unlock (int lk) {
+	vrt_releasing (&mu, lk_writer (lk));
+	if (lk == LK_R || lk == LK_GR) nsync_mu_runlock (&mu); else nsync_mu_unlock (&mu);
+}
+/* one wait of a MODE 5 / 6 waiter, by either entry point, with all the return-time checks */
+static int checked_wait2 (int lk, int timed, int cancellable) {
+	nsync_time dl = nsync_time_no_deadline;
+	int r, t = vrt_self (), writer = lk_writer (lk);
+	if (timed) dl = vrt_abs ((int64_t) vrt_rand (6) * 700 - 700);
+	if (lk == LK_W || lk == LK_R) {
+		vrt_releasing (&mu, writer);
+		if (!timed && !cancellable && vrt_rand (2)) { nsync_cv_wait (&cv, &mu); r = 0; }
+		else r = nsync_cv_wait_with_deadline (&cv, &mu, dl, cancellable ? cancel : NULL);
+		vrt_acquired (&mu, writer);
+	} else {
+		vrt_sh_set (SH_GUN (t), 0); vrt_sh_set (SH_GLK (t), 0);
+		r = nsync_cv_wait_with_deadline_generic (&cv, &mu, lk == LK_GW ? &g_lock : &g_rlock, lk == LK_GW ? &g_unlock : &g_runlock,
+							 dl, cancellable ? cancel : NULL);
+		if (vrt_sh_get (SH_GUN (t)) != 1 || vrt_sh_get (SH_GLK (t)) != 1)
+			vrt_fail ("C05", "generic cv wait returned %d after %ld unlock and %ld lock callbacks: the caller's lock is not held as it was on entry",
+				  r, vrt_sh_get (SH_GUN (t)), vrt_sh_get (SH_GLK (t)));
+		vrt_count ("ret_generic");
+	}
+	if (vrt_holders (&mu, writer) < 1) vrt_fail ("C05", "cv wait returned without the lock held in the caller's mode");
+	check_result (r, timed, ts_ns (dl), cancellable);
 	return r;
 }
 
@@ -101,21 +204,8 @@ static void producer (void *a) {
 		if (style == 1) nsync_cv_signal (&cv);
 	}
 }
-static void notifier (void *a) { vrt_point ("before-notify"); nsync_note_notify (cancel); }
+static void notifier (void *a) { vrt_point ("before-notify"); vrt_sh_set (SH_NOTIFIED, 1); nsync_note_notify (cancel); }
 
-static void rwaiter (void *a) {
-	int timed = (int) (long) a;
-	int r = 0;
-	nsync_mu_rlock (&mu); vrt_acquired (&mu, 0);
-	while (!go_flag && r == 0) r = checked_wait (0, timed, 0);
-	vrt_releasing (&mu, 0); nsync_mu_runlock (&mu);
-}
-static void wwaiter (void *a) {
-	nsync_mu_lock (&mu); vrt_acquired (&mu, 1);
-	while (!go_flag) checked_wait (1, 0, 0);
-	vrt_releasing (&mu, 1); nsync_mu_unlock (&mu);
-	nsync_cv_signal (&cv);     /* pass the baton on, in case a reader queued behind us */
-}
 static void rsignaller (void *a) {
 	int nwait = (int) (long) a;
 	/* wait until every waiter is really waiting (the property speaks of threads that started waiting before the wake-up) */
@@ -200,12 +290,16 @@ static void nconsumer (void *a) {
 }
 
 /* MODE 4: ONE waiter (timed and/or cancellable), one waker that signals or broadcasts INSIDE its critical section,
-   strictly before the waiter's deadline and before the note is notified, and then keeps the mutex while the clock
+   strictly before the waiter's deadline and before the cancellation is started, and then keeps the mutex while the clock
    passes the deadline / the note gets notified.  The wake-up reached the waiter (it was the only one queued), so the
-   wait must report 0 -- never ETIMEDOUT or ECANCELED (C04: a consumed wake-up is reported as a wake-up). */
+   wait must report 0 -- never ETIMEDOUT or ECANCELED (C04: a consumed wake-up is reported as a wake-up).  Whatever it
+   reports also goes through the C05 checks of every other wait (ETIMEDOUT only at/after the deadline, ECANCELED only
+   after nsync_note_notify was called, lock held in the caller's mode). */
 #define M3_QUEUED 6
 #define M3_SIGNALLED_IN_TIME 7
+#define M3_DECIDED 9
 static int64_t m3_deadline_ns;
+static uint32_t m3_gate;
 static void m3_waiter (void *a) {
 	int kind = 1 + (int) vrt_rand (3);      /* 1 timed, 2 cancellable, 3 both */
 	int writer = (int) vrt_rand (2), r;
@@ -219,7 +313,7 @@ static void m3_waiter (void *a) {
 	vrt_acquired (&mu, writer);
 	if (vrt_sh_get (M3_SIGNALLED_IN_TIME) && r != 0)
 		vrt_fail ("C04", "the only waiter was signalled before its deadline / cancellation, yet its wait returned %d instead of 0", r);
-	vrt_count (r == 0 ? "ret_woken" : "ret_other");
+	check_result (r, kind & 1, m3_deadline_ns, (kind & 2) != 0);
 	vrt_releasing (&mu, writer);
 	if (writer) nsync_mu_unlock (&mu); else nsync_mu_runlock (&mu);
 }
@@ -230,36 +324,130 @@ static void m3_waker (void *a) {
 		vrt_releasing (&mu, 1); nsync_mu_unlock (&mu);
 		vrt_yield ();
 	}
-	if (vrt_now_ns () < m3_deadline_ns && !nsync_note_is_notified (cancel)) {
+	if (vrt_now_ns () < m3_deadline_ns && !vrt_sh_get (SH_NOTIFIED)) {
 		if (vrt_rand (2)) nsync_cv_signal (&cv); else nsync_cv_broadcast (&cv);
-		/* the wake-up has been issued in time if the clock still is before the deadline now */
-		if (vrt_now_ns () < m3_deadline_ns && !nsync_note_is_notified (cancel)) vrt_sh_set (M3_SIGNALLED_IN_TIME, 1);
+		/* the wake-up has been issued in time if the clock still is before the deadline now and nobody has started to cancel */
+		if (vrt_now_ns () < m3_deadline_ns && !vrt_sh_get (SH_NOTIFIED)) vrt_sh_set (M3_SIGNALLED_IN_TIME, 1);
 	}
+	gate_open (&m3_gate, M3_DECIDED);      /* the notifier may go ahead */
 	/* keep the mutex while the deadline passes (and the notifier may run): the waiter's timed sleep ends, it goes through
 	   its timeout / cancellation confirmation path and then has to wait for the mutex */
 	vrt_point ("holding-1");
 	if (vrt_rand (3) != 0 && m3_deadline_ns != INT64_MAX) vrt_clock_forward_to (m3_deadline_ns + (int64_t) vrt_rand (3));
 	{ int k, n = 3 + (int) vrt_rand (12); for (k = 0; k < n; k++) vrt_point ("holding"); }
 	vrt_releasing (&mu, 1); nsync_mu_unlock (&mu);
-	vrt_sh_set (8, 1);
 	nsync_cv_broadcast (&cv);
 }
 static void m3_notifier (void *a) {
-	/* cancel only after the wake-up has been issued (a cancellation before it is a legitimate ECANCELED) */
-	int k;
-	for (k = 0; k < 200 && !vrt_sh_get (M3_SIGNALLED_IN_TIME) && !vrt_sh_get (8); k++) vrt_yield ();
+	/* cancel only after the waker has issued its wake-up (or has found that it is too late for one): a cancellation before it
+	   would be a legitimate ECANCELED.  Blocks on a gate; no step budget, no assumption about the scheduler. */
+	gate_wait (&m3_gate, M3_DECIDED);
+	vrt_sh_set (SH_NOTIFIED, 1);
 	nsync_note_notify (cancel);
+}
+
+/* MODE 5: every waiter is on the cv queue before the ONE wake-up is issued (C04: "a thread that started waiting before a
+   wake-up is issued is covered by it").  Waiters have no deadline and wait for go_flag: in writer mode or reader mode on the
+   nsync_mu, or (all waiters of the run) through the generic entry point with exclusive / shared lock callbacks -- for the cv
+   those are not readers, it cannot know.  Each announces itself while it still holds the mutex, so the
+   waker, who looks under the mutex in write mode, sees the announcement only after the waiter is queued on the cv.
+   Variant 0: the flag is set and ONE nsync_cv_broadcast is issued inside or after the critical section; nobody helps
+   afterwards: a waiter that was not woken ends the run stuck.
+   Variant 1: ONE nsync_cv_signal instead.  The waker then naps until the world is quiescent (everybody else asleep or
+   finished) and looks at who has returned: at least one waiter; and if no waiter that signal could have picked as a
+   non-reader has returned (only native reader-mode waiters have), the picked thread held the mutex as a reader, so ALL
+   reader-mode waiters must have returned.  (The property does not say WHICH thread signal picks, so outcomes in which
+   some writer returned are all accepted.)  A final broadcast releases the rest. */
+#define M5_ANNOUNCED 10
+#define M5_DONE(i) (40 + (i))
+static int m5_n, m5_variant, m5_lk[4];
+static void m5_waiter (void *a) {
+	int i = (int) (long) a, lk = m5_lk[i], r = 0;
+	lk_lock (lk);
+	vrt_sh_add (M5_ANNOUNCED, 1);
+	while (!go_flag) {
+		r = checked_wait2 (lk, 0, 0);
+		if (r != 0) vrt_fail ("C05", "wait without deadline or note returned %d", r);
+	}
+	vrt_sh_set (M5_DONE (i), 1);
+	lk_unlock (lk);
+}
+static void m5_waker (void *a) {
+	int inside = (int) vrt_rand (2), i;
+	for (;;) {     /* until every waiter is on the cv queue */
+		nsync_mu_lock (&mu); vrt_acquired (&mu, 1);
+		if (vrt_sh_get (M5_ANNOUNCED) >= m5_n) break;
+		vrt_releasing (&mu, 1); nsync_mu_unlock (&mu);
+		vrt_yield ();
+	}
+	go_flag = 1;
+	if (inside) { if (m5_variant == 0) nsync_cv_broadcast (&cv); else nsync_cv_signal (&cv); }
+	vrt_releasing (&mu, 1); nsync_mu_unlock (&mu);
+	if (!inside) { if (m5_variant == 0) nsync_cv_broadcast (&cv); else nsync_cv_signal (&cv); }
+	vrt_count (m5_variant == 0 ? "one_broadcast" : "one_signal");
+	if (m5_variant == 1) {
+		int nret = 0, nonreader_ret = 0, readers = 0, readers_ret = 0;
+		do nap_until (vrt_now_ns () + 5000); while (!others_quiet ());
+		for (i = 0; i < m5_n; i++) {
+			int d = vrt_sh_get (M5_DONE (i)) != 0;
+			nret += d;
+			if (m5_lk[i] == LK_R) { readers++; readers_ret += d; } else nonreader_ret += d;   /* the cv cannot know that a generic lock is shared */
+		}
+		if (nret == 0) vrt_fail ("C04", "%d threads were waiting on the cv when nsync_cv_signal was called, none of them has been woken", m5_n);
+		if (nonreader_ret == 0 && readers_ret < readers)
+			vrt_fail ("C04", "nsync_cv_signal picked a reader-mode waiter (only readers returned) but woke only %d of the %d waiting readers", readers_ret, readers);
+		if (nret < m5_n) vrt_count ("signal_left_some");
+		nsync_cv_broadcast (&cv);     /* release the others; the flag is set */
+	}
+}
+
+/* MODE 6: flag monitor in which everything races: waiters in all four lock kinds, plain / timed / cancellable / both, start
+   at any time; a setter sets the flag under the mutex and broadcasts (inside or after the critical section) at a random
+   moment that may be near the waiters' deadlines; a noise thread signals / broadcasts without changing anything (woken
+   waiters go back to waiting); the note may get notified.  A waiter that finds the flag clear and starts waiting does so
+   atomically with respect to the setter, so the setter's broadcast covers it: every waiter without deadline and note must
+   finish (stuck detector).  Every return goes through checked_wait2. */
+static int m6_lk[4], m6_kind[4];
+static void m6_waiter (void *a) {
+	int i = (int) (long) a, lk = m6_lk[i], r = 0;
+	lk_lock (lk);
+	while (!go_flag && r == 0) r = checked_wait2 (lk, m6_kind[i] & 1, (m6_kind[i] & 2) != 0);
+	lk_unlock (lk);
+}
+static void m6_setter (void *a) {
+	int inside = (int) vrt_rand (2), k, n = (int) vrt_rand (20);
+	if (vrt_rand (3) == 0) nap_until (ts_ns (vrt_abs ((int64_t) vrt_rand (5) * 700 - 2 + (int64_t) vrt_rand (4))));   /* close to a possible deadline */
+	else for (k = 0; k < n; k++) vrt_point ("setter-delay");
+	nsync_mu_lock (&mu); vrt_acquired (&mu, 1);
+	go_flag = 1;
+	if (inside) nsync_cv_broadcast (&cv);
+	vrt_releasing (&mu, 1); nsync_mu_unlock (&mu);
+	if (!inside) nsync_cv_broadcast (&cv);
+}
+static void m6_noise (void *a) {
+	int k, n = 1 + (int) vrt_rand (3);
+	for (k = 0; k < n; k++) {
+		int how = (int) vrt_rand (3);     /* without the mutex, under a write lock, under a read lock */
+		if (how == 1) { nsync_mu_lock (&mu); vrt_acquired (&mu, 1); }
+		if (how == 2) { nsync_mu_rlock (&mu); vrt_acquired (&mu, 0); }
+		if (vrt_rand (3) == 0) nsync_cv_broadcast (&cv); else nsync_cv_signal (&cv);
+		if (how == 1) { vrt_releasing (&mu, 1); nsync_mu_unlock (&mu); }
+		if (how == 2) { vrt_releasing (&mu, 0); nsync_mu_runlock (&mu); }
+		vrt_point ("noise");
+	}
 }
 
 static void debugger (void *a) {
 	int k;
 	char buf[200];
 	for (k = 0; k < 8; k++) {
+		vrt_observer_begin (buf, sizeof (buf));      /* C16: a debug-state call writes nothing but its buffer (and its own stack) */
 		switch (vrt_rand (4)) {
 		case 0: nsync_cv_debug_state (&cv, buf, (int) sizeof (buf)); break;
 		case 1: nsync_mu_debug_state_and_waiters (&mu, buf, (int) sizeof (buf)); break;
 		default: nsync_cv_debug_state_and_waiters (&cv, buf, (int) sizeof (buf)); break;
 		}
+		vrt_observer_end ();
 		vrt_count ("debug_call");
 	}
 }
@@ -268,6 +456,13 @@ int main (void) {
 	int mode = vrt_opt ("MODE", (int) vrt_rand (5));
 	int i;
 	static char nm[12][8];
+	/* MODE 5 / 6: all the waiters of a run use the same entry point, i.e. the cv sees ONE lock identity per run (either the
+	   nsync_mu, or an opaque lock with callbacks): cv.c's wake_waiters requires "that every waiter is associated with the same
+	   mutex".  VRT_MIXLOCKS=1 mixes them (a generic-lock waiter queued behind a native one is then moved to the nsync_mu's
+	   queue with a null lock type, both generic waiters are woken at once and MU_DESIG_WAKER is never cleared: a later
+	   locker sleeps for ever); kept as an option to reproduce that observation, not used by any check. */
+	int gen = 0, mix = vrt_opt ("MIXLOCKS", 0);
+#define THREAD(name, fn, arg) (tids[n_tids++] = vrt_thread (name, fn, arg))
 	vrt_register (&mu, sizeof (mu), "mu0");
 	vrt_register (&cv, sizeof (cv), "cv0");
 	vrt_set_write_monitor (monitor);
@@ -311,6 +506,32 @@ int main (void) {
 		vrt_thread ("w", m3_waiter, NULL);
 		vrt_thread ("s", m3_waker, NULL);
 		vrt_thread ("n", m3_notifier, NULL);
+	} else if (mode == 5) {
+		m5_n = 2 + (int) vrt_rand (3);
+		gen = vrt_opt ("GENERIC", vrt_rand (3) == 0);
+		m5_variant = vrt_opt ("VARIANT", (int) vrt_rand (2));
+		for (i = 0; i < m5_n; i++) {
+			/* variant 1 wants reader-heavy queues such as [reader, reader, writer] */
+			int rd = m5_variant == 1 ? vrt_rand (5) >= 2 : (int) vrt_rand (2);
+			m5_lk[i] = (rd ? LK_R : LK_W) + ((gen || (mix && vrt_rand (2))) ? 2 : 0);
+			snprintf (nm[i], 8, "%c%d", "wrgh"[m5_lk[i]], i);
+			THREAD (nm[i], m5_waiter, (void *) (long) i);
+		}
+		THREAD ("wk", m5_waker, NULL);
+	} else if (mode == 6) {
+		int nw = 2 + (int) vrt_rand (3), any_cancel = 0;
+		gen = vrt_opt ("GENERIC", vrt_rand (3) == 0);
+		cancel = nsync_note_new (NULL, nsync_time_no_deadline);
+		for (i = 0; i < nw; i++) {
+			m6_lk[i] = (int) vrt_rand (2) + ((gen || (mix && vrt_rand (2))) ? 2 : 0);
+			m6_kind[i] = (int) vrt_rand (4);
+			if (m6_kind[i] & 2) any_cancel = 1;
+			snprintf (nm[i], 8, "%c%d", "wrgh"[m6_lk[i]], i);
+			THREAD (nm[i], m6_waiter, (void *) (long) i);
+		}
+		THREAD ("set", m6_setter, NULL);
+		if (vrt_rand (3) != 0) THREAD ("nz", m6_noise, NULL);
+		if (any_cancel && vrt_rand (2)) THREAD ("ntf", notifier, NULL);
 	} else if (mode == 2) {
 		vrt_thread ("w", m2_writer, NULL);
 		vrt_thread ("rs", m2_rsignaller, NULL);
@@ -321,7 +542,7 @@ int main (void) {
 		for (i = 0; i < nr; i++) { snprintf (nm[i], 8, "r%d", i); vrt_thread (nm[i], rwaiter_counted, NULL); }
 		vrt_thread ("sig", rsignaller, (void *) (long) nr);
 	}
-	if (vrt_opt ("DEBUGGER", 0)) vrt_thread ("dbg", debugger, NULL);
+	if (vrt_opt ("DEBUGGER", 0)) THREAD ("dbg", debugger, NULL);
 	vrt_run ();
 	printf ("VRT-END ok\n");
 	return 0;
